@@ -8,6 +8,7 @@ import (
 	"encoding/base64"
 	"encoding/json"
 	"fmt"
+	"io"
 	"regexp"
 	"sort"
 	"strings"
@@ -436,6 +437,10 @@ type c15E2EInput struct {
 	// ReadChunk > 0: the daemon's answer arrives in blocks of that many bytes, a Read never crosses a block boundary
 	// (what a buffered HTTP body does); 0: a Read returns whatever fits.
 	ReadChunk int `json:"read_chunk,omitempty"`
+	// Want, when set, is what the query selects out of Logs (the query text reaches the engine verbatim).
+	Want []c15Stream `json:"want,omitempty"`
+	// EOFWithData: the last Read of every stream returns its bytes together with io.EOF (io.Reader allows that).
+	EOFWithData bool `json:"eof_with_data,omitempty"`
 	// Limit: what the --limit flag among Args means (nil: no such flag). A positive limit keeps the first min(L, N)
 	// entries in time order, any other value keeps all (C08's last sentence, here through the command's own wiring).
 	Limit *int `json:"limit,omitempty"`
@@ -478,7 +483,19 @@ func c15E2EExec(in c15E2EInput) (o c15Obs) {
 		ctrs = append(ctrs, fakedocker.Container{ID: fmt.Sprintf("id%d", i), Name: "/" + l.Container, Image: "img", State: "running", Log: fakedocker.Encode(recs)})
 	}
 	fake := fakedocker.New(ctrs)
-	if in.ReadChunk > 0 {
+	if in.EOFWithData {
+		chunk := in.ReadChunk
+		fake.Plan = func(c int, pos, max int) (int, error) {
+			n := max
+			if chunk > 0 && chunk-pos%chunk < n {
+				n = chunk - pos%chunk
+			}
+			if pos+n == len(ctrs[c].Log) {
+				return n, io.EOF
+			}
+			return n, nil
+		}
+	} else if in.ReadChunk > 0 {
 		chunk := in.ReadChunk
 		fake.Plan = func(_ int, pos, max int) (int, error) {
 			n := chunk - pos%chunk
@@ -554,6 +571,9 @@ func c15E2ECheck(r *vkit.Run, in c15E2EInput) {
 	}
 	if in.Empty {
 		logs = nil
+	}
+	if in.Want != nil {
+		logs = in.Want
 	}
 	if in.Limit != nil && *in.Limit > 0 {
 		logs = c15FirstN(logs, *in.Limit)
@@ -663,6 +683,97 @@ func c15E2ERun(r *vkit.Run, one func(fn func())) {
 						in := c15E2EInput{Args: append(append([]string{}, f.args...), sp...), Timestamp: f.ts, Container: f.ct, Color: f.co, Logs: logs, Limit: &l, Plugin: plug}
 						one(func() { c15E2ECheck(r, in) })
 					}
+				}
+			}
+		}
+	}
+	// the query text reaches the engine as it was typed: escaped quotes with runs of blanks between them, tabs and
+	// line breaks inside and outside string literals, comments; both ways of reaching the command
+	{
+		mk := func(msgs ...string) []c15Stream {
+			s := c15Stream{Container: "c0"}
+			for j, m := range msgs {
+				s.Entries = append(s.Entries, c15Entry{TS: base + int64(j)*1000000007, Msg: m})
+			}
+			return []c15Stream{s}
+		}
+		pick := func(logs []c15Stream, idx ...int) []c15Stream {
+			s := c15Stream{Container: logs[0].Container}
+			for _, i := range idx {
+				s.Entries = append(s.Entries, logs[0].Entries[i])
+			}
+			return []c15Stream{s}
+		}
+		logs := mk(`msg="disk full"`, `msg="disk  full"`, "a\tb", "a b", `x  y`, `x y`, "#not a comment", "`q  q`")
+		for _, qc := range []struct {
+			q    string
+			want []int
+		}{
+			{`{} |= "msg=\"disk  full\""`, []int{1}},
+			{`{} |= "msg=\"disk full\""`, []int{0}},
+			{"{} |= `x  y`", []int{4}},
+			{`{}   |=   "x y"`, []int{5}},
+			{"{}\n\t|= \"a\\tb\"", []int{2}},
+			{"{} # all of them\n |= \"x\"", []int{4, 5}},
+			{"{} |= \"#not\" # but this is one", []int{6}},
+			{"{} |= \"`q  q`\"", []int{7}},
+			{` {} |= "a" != "a b" `, []int{2, 6}},
+		} {
+			for fi, f := range forms {
+				if fi%7 != 0 {
+					continue
+				}
+				for _, plug := range []bool{false, true} {
+					in := c15E2EInput{Args: f.args, Timestamp: f.ts, Container: f.ct, Color: f.co, Logs: logs, Query: qc.q, Want: pick(logs, qc.want...), Plugin: plug}
+					one(func() { c15E2ECheck(r, in) })
+				}
+			}
+		}
+	}
+	// one container whose lines take 12 different label sets under a parser stage (12 streams in the engine's result):
+	// still one line per entry in time order
+	{
+		s := c15Stream{Container: "c0"}
+		for j := 0; j < 12; j++ {
+			s.Entries = append(s.Entries, c15Entry{TS: base + int64(j)*1000000007, Msg: fmt.Sprintf("k%d=v%d n=%d", j%4, j/4, j)})
+		}
+		js := c15Stream{Container: "c0"}
+		for j := 0; j < 12; j++ {
+			js.Entries = append(js.Entries, c15Entry{TS: base + int64(j)*1000000007, Msg: fmt.Sprintf(`{"k%d":"v%d","n":%d}`, j%4, j/4, j)})
+		}
+		for fi, f := range forms {
+			if fi%3 != 0 {
+				continue
+			}
+			for _, c := range []struct {
+				q    string
+				logs []c15Stream
+			}{{`{} | logfmt`, []c15Stream{s}}, {`{container="c0"} | logfmt | drop n`, []c15Stream{s}}, {`{} | json`, []c15Stream{js}}, {`{} | json | drop n`, []c15Stream{js}}} {
+				for _, plug := range []bool{false, true} {
+					in := c15E2EInput{Args: f.args, Timestamp: f.ts, Container: f.ct, Color: f.co, Logs: c.logs, Query: c.q, Want: c.logs, Plugin: plug}
+					one(func() { c15E2ECheck(r, in) })
+				}
+			}
+		}
+	}
+	// the last bytes of a stream arrive together with io.EOF: whole stream in one Read, and in blocks of 7 and 64
+	for fi, f := range forms {
+		if fi%5 != 0 {
+			continue
+		}
+		for n := 1; n <= 2; n++ {
+			var logs []c15Stream
+			for i := 0; i < n; i++ {
+				s := c15Stream{Container: fmt.Sprintf("c%d", i)}
+				for j := 0; j < 3; j++ {
+					s.Entries = append(s.Entries, c15Entry{TS: base + int64(j*n+i)*1000000007, Msg: msgs[(i+j)%8]})
+				}
+				logs = append(logs, s)
+			}
+			for _, chunk := range []int{0, 7, 64} {
+				for _, plug := range []bool{false, true} {
+					in := c15E2EInput{Args: f.args, Timestamp: f.ts, Container: f.ct, Color: f.co, Logs: logs, EOFWithData: true, ReadChunk: chunk, Plugin: plug}
+					one(func() { c15E2ECheck(r, in) })
 				}
 			}
 		}
